@@ -16,13 +16,43 @@ RULE = ('generated error files: random bodies (n in 1..40, 0..30 errors), header
         'JSON, non-list body values, non-numeric probability, bad start); the real FileErrorModel is driven through a '
         'random call sequence (generate with right/wrong probability and qubit count, probability_distribution, label '
         'and extra attributes) up to and past EOF; outcome sequence compared exactly. The repo fixture files are '
-        'replayed too. non-trivial = file with a body or a malformed construct')
+        'replayed too. Record LENGTHS as a class relative to the asked code: files holding one record of every length '
+        '0..4n+2 bits (n in 1..13; 2n-1, 2n+1 and the odd lengths included) asked with the fixed qubit count n, or '
+        'with the qubit counts around len/2 - served iff the length is exactly 2n. HISTORIES over files with REPEATED '
+        'identical records (pool of 1..3 errors, identity included), the same file (or a byte-identical second file) '
+        'open in 1..3 models with their own start offsets, calls interleaved; between the calls the caller modifies '
+        'served errors in place (zero / flip / xor with an earlier one / fill), calls paulitools.unpack itself on a '
+        'recorded value and modifies that: every model\'s outcome sequence must still be the one its file dictates '
+        '(model asked per FileErrorModel), served arrays must not share memory with anything the caller holds, held '
+        'arrays must not change. Recorded values are decoded by the harness from the file text (not by paulitools). '
+        'non-trivial = file with a body or a malformed construct')
 
 WS = [' ', '\t', '  ', ' \t ']   # JSON whitespace only before JSON values; no \r (newline translation is the OS layer)
 
 
 def hexs(s):
     return s.encode('latin-1').hex() or '-'
+
+
+def pack_bits(v):
+    """the documented record format [hex of the bits packed big-endian and zero-padded to whole bytes, bit count],
+    written by the harness itself (independent of paulitools)"""
+    v = [int(x) for x in v]
+    by = bytearray()
+    for i in range(0, len(v), 8):
+        chunk = v[i:i + 8]
+        chunk = chunk + [0] * (8 - len(chunk))
+        by.append(int(''.join(map(str, chunk)), 2))
+    return [by.hex(), len(v)]
+
+
+def unpack_bits(rec):
+    """what a record [hex, length] of the file text records, decoded by the harness itself"""
+    h, length = rec
+    out = []
+    for b in bytes.fromhex(h):
+        out += [(b >> (7 - k)) & 1 for k in range(8)]
+    return out[:length]
 
 
 def hval(v):
@@ -76,11 +106,9 @@ def gen_file(rng, malformed):
     n = rng.choice([1, 2, 3, 5, 8, 13, 25, 40])
     m = rng.choice([0, 1, 2, 3, 5, 8, 13, 30])
     p = rng.choice([0.1, 0.25, 0.0, 1, 0.5, '0.125'])
-    from qecsim import paulitools as pt
     body = []
     for _ in range(m):
-        e = np.array([1 if rng.random() < 0.3 else 0 for _ in range(2 * n)], dtype=int)
-        body.append(list(pt.pack(e)))
+        body.append(pack_bits([1 if rng.random() < 0.3 else 0 for _ in range(2 * n)]))
     header = {'probability': p, 'label': rng.choice(['Biased', 'x y', '', 'lbl-1'])}
     if rng.random() < 0.6:
         header['probability_distribution'] = rng.choice([[0.9, 0.05, 0.03, 0.02], [1, 0, 0, 0], [], None])
@@ -153,6 +181,221 @@ def gen_file(rng, malformed):
     return out, {'n': n, 'm': m, 'p': p, 'kind': kind, 'header': header}
 
 
+def decorate(rng, lines):
+    out = []
+    for l in lines:
+        while rng.random() < 0.15:
+            out.append(rng.choice(['', ' ', '// comment', '  // ["00", 2]', '//', '\t']))
+        out.append(l)
+    return out
+
+
+def gen_length_file(rng, n):
+    """record LENGTHS as a class relative to the asked code: one record of every length 0..4n+2 bits (random
+    contents), in ascending or random order, optionally with matching (2n-bit) records in between.  The qubit count
+    asked per call is n (fixed code) or, per record, one of the counts around len/2 (so that for every length both
+    the matching count - if there is one - and the nearest non-matching counts are asked)."""
+    lengths = list(range(0, 4 * n + 3))
+    if rng.random() < 0.5:
+        rng.shuffle(lengths)
+    if rng.random() < 0.5:
+        k = rng.randint(1, 4)
+        for _ in range(k):
+            lengths.insert(rng.randrange(len(lengths) + 1), 2 * n)
+    p = rng.choice([0.1, 0.25, 0.5])
+    header = {'probability': p, 'label': 'lengths'}
+    body = [pack_bits([rng.randint(0, 1) for _ in range(L)]) for L in lengths]
+    mode = rng.choice(['fixed-n', 'fixed-n', 'around-half'])
+    calls = []
+    for L in lengths:
+        if mode == 'fixed-n':
+            calls.append(('g', n, p))
+        else:
+            calls.append(('g', rng.choice([L // 2, L // 2, (L + 1) // 2, L // 2 + 1, max(L // 2 - 1, 0), L, n]), p))
+    calls.append(('g', n, p))      # past the end
+    lines = decorate(rng, [json.dumps(header)] + [json.dumps(b) for b in body])
+    return lines, {'n': n, 'm': len(body), 'p': p, 'kind': 'wellformed', 'cls': 'lengths:' + mode, 'header': header,
+                   'calls': calls, 'start': 0}
+
+
+MUTATIONS = ['zero', 'flip-all', 'flip-one', 'xor-held', 'fill-1', 'none', 'zero', 'flip-all']
+
+
+def gen_history(rng):
+    """a file with REPEATED identical records, replayed by 1..3 models (own start offsets, possibly over a second,
+    byte-identical file), calls interleaved; the caller modifies served errors in place between the calls"""
+    n = rng.choice([1, 2, 3, 5, 5, 7])
+    pool = [[0] * (2 * n)] if rng.random() < 0.6 else []
+    while len(pool) < rng.choice([1, 2, 2, 3]):
+        pool.append([1 if rng.random() < 0.4 else 0 for _ in range(2 * n)])
+    m = rng.randint(3, 14)
+    body = [pack_bits(rng.choice(pool)) for _ in range(m)]
+    p = rng.choice([0.1, 0.2, 0.5])
+    header = {'probability': p, 'label': 'hist'}
+    if rng.random() < 0.5:
+        header['probability_distribution'] = [0.8, 0.1, 0, 0.1]
+    lines = decorate(rng, [json.dumps(header)] + [json.dumps(b) for b in body])
+    k = rng.choice([1, 2, 2, 3])
+    models = [{'start': rng.choice([0, 0, 0, 1, 2, rng.randint(0, m)]), 'file': rng.choice([0, 0, 1])} for _ in range(k)]
+    steps = []
+    remaining = [m - mo['start'] + 2 for mo in models]      # up to and past the end of each model
+    while any(r > 0 for r in remaining):
+        j = rng.choice([i for i, r in enumerate(remaining) if r > 0])
+        remaining[j] -= 1
+        r = rng.random()
+        if r < 0.9:
+            steps.append(['g', j, n, p])
+        elif r < 0.95:
+            steps.append(['g', j, n, p + 0.125]); remaining[j] += 1      # refused before pulling: nothing consumed
+        else:
+            steps.append(['g', j, rng.choice([n + 1, max(n - 1, 0)]), p])  # refused, record consumed
+        if rng.random() < 0.75:
+            steps.append(['mut', rng.choice(MUTATIONS), rng.choice(['last', 'last', 'last', 'any']),
+                          rng.randrange(1 << 16)])
+        if rng.random() < 0.12:
+            steps.append(['unpack', rng.randrange(m), rng.choice(MUTATIONS)])
+    return {'lines': lines, 'models': models, 'steps': steps, 'n': n, 'm': m, 'p': p}
+
+
+def apply_mutation(how, arr, held, salt):
+    """the caller's own in-place update of an array it owns"""
+    if how == 'zero':
+        arr ^= arr
+    elif how == 'flip-all':
+        arr ^= 1
+    elif how == 'flip-one' and arr.size:
+        arr[salt % arr.size] ^= 1
+    elif how == 'xor-held':
+        same = [h for h in held if h is not arr and h.shape == arr.shape]
+        if same:
+            arr ^= same[salt % len(same)]
+        else:
+            arr ^= 1
+    elif how == 'fill-1':
+        arr[:] = 1
+
+
+def exec_history(h, tmp):
+    """drive the real code through the history.  returns (per-model outcome strings, failure or None)
+    failure = the property evaluated from the file text alone: every served error is the recorded one, in order,
+    whatever the caller did with the arrays it was given"""
+    from qecsim.models.generic import FileErrorModel
+    from qecsim import paulitools as pt
+    lines, models, steps = h['lines'], h['models'], h['steps']
+    paths = []
+    for f in (0, 1):
+        path = os.path.join(tmp, 'h{}.jsonl'.format(f))
+        with open(path, 'w', encoding='latin-1', newline='') as fh:
+            fh.write(''.join(l + '\n' for l in lines))
+        paths.append(path)
+    body = [json.loads(l) for l in lines if tok_of(l).startswith('E') and not l.strip().startswith('//')]
+    pf = float(h['p'])
+    fems = [FileErrorModel(paths[mo['file']], mo['start']) for mo in models]
+    ptr = [mo['start'] for mo in models]
+    outs = [[] for _ in models]
+    held = []          # arrays the caller owns
+    snaps = []         # their values as of the caller's last own update
+    value_fail = alias_fail = None
+    last = None
+
+    def held_changed():
+        for a, sn in zip(held, snaps):
+            if a.tolist() != sn:
+                return True
+        return False
+
+    for si, st in enumerate(steps):
+        if st[0] == 'g':
+            _, j, n_call, p_call = st
+            if p_call != pf:
+                exp = 'Rejected'
+            elif ptr[j] >= len(body):
+                exp = 'EOFError'
+            else:
+                rec = unpack_bits(body[ptr[j]]); ptr[j] += 1
+                exp = bits(rec) if len(rec) == 2 * n_call else 'Rejected'
+            try:
+                e = fems[j].generate(FakeCode(n_call), p_call)
+                if not isinstance(e, np.ndarray):
+                    got = 'notarray'
+                else:
+                    got = bits(e)
+                    if not e.flags.writeable:
+                        got += '!readonly'
+            except EOFError:
+                got = 'EOFError'; e = None
+            except (ValueError, TypeError, KeyError):
+                got = 'Rejected'; e = None
+            outs[j].append(got)
+            if got != exp and value_fail is None:
+                value_fail = {'what': 'file error model does not replay the file faithfully: step {} (model {}, '
+                                      'start {}) returned {} where the file records {}; the caller had modified '
+                                      'earlier served arrays in place'.format(si, j, models[j]['start'], got[:80],
+                                                                              exp[:80]),
+                              'step': si, 'got': got[:80], 'expected': exp[:80]}
+            if held_changed() and value_fail is None:
+                value_fail = {'what': 'generate changed an error array that had been served earlier and belongs to '
+                                      'the caller (step {})'.format(si), 'step': si}
+            if isinstance(e, np.ndarray):
+                if alias_fail is None and any(a.size and e.size and np.shares_memory(a, e) for a in held):
+                    alias_fail = {'what': 'the error served at step {} shares memory with an array served (or '
+                                          'unpacked) earlier that the caller still holds and may modify'.format(si),
+                                  'step': si}
+                if e.flags.writeable:
+                    held.append(e); snaps.append(e.tolist()); last = len(held) - 1
+        elif st[0] == 'mut' and held:
+            _, how, which, salt = st
+            i = last if (which == 'last' and last is not None) else salt % len(held)
+            apply_mutation(how, held[i], held, salt)
+            snaps[:] = [a.tolist() for a in held]     # aliases of held[i] (if any) change with it: caller's own doing
+        elif st[0] == 'unpack':
+            _, idx, how = st
+            a = pt.unpack(tuple(body[idx]))
+            if isinstance(a, np.ndarray) and a.flags.writeable:
+                if alias_fail is None and any(x.size and a.size and np.shares_memory(x, a) for x in held):
+                    alias_fail = {'what': 'paulitools.unpack (step {}) returned an array sharing memory with an '
+                                          'error served earlier'.format(si), 'step': si}
+                held.append(a)
+                apply_mutation(how, a, held, idx)
+                snaps[:] = [x.tolist() for x in held]
+    del fems
+    return ['open=ok ' + '|'.join(o) for o in outs], (value_fail or alias_fail)
+
+
+_CHILD = r'''
+import json, os, shutil, sys, tempfile
+sys.path.insert(0, sys.argv[1])
+import qecsim
+from qv.props import c18
+h = json.load(sys.stdin)
+tmp = tempfile.mkdtemp(prefix='qv_c18_', dir='/var/tmp')
+try:
+    outs, fail = c18.exec_history(h, tmp)
+finally:
+    shutil.rmtree(tmp, ignore_errors=True)
+print(json.dumps({'qecsim': os.path.realpath(os.path.dirname(qecsim.__file__)), 'fail': fail}))
+'''
+
+
+def standalone_failure(h):
+    """the history on its own, in a fresh interpreter (nothing the harness did before can matter): its failure or None"""
+    import subprocess
+    import sys
+    import qecsim
+    harness = os.path.abspath(os.path.join(os.path.dirname(__file__), '..', '..'))
+    r = subprocess.run([sys.executable, '-c', _CHILD, harness], input=json.dumps(h), stdout=subprocess.PIPE,
+                       stderr=subprocess.PIPE, text=True, timeout=300)
+    if r.returncode != 0:
+        return None
+    try:
+        out = json.loads(r.stdout.strip().splitlines()[-1])
+    except (ValueError, IndexError):
+        return None
+    if out.get('qecsim') != os.path.realpath(os.path.dirname(qecsim.__file__)):
+        return None
+    return out.get('fail')
+
+
 def wire_lines(lines):
     parts = []
     for l in lines:
@@ -214,6 +457,10 @@ def run(ctx):
         for it in range(ctx.scale(1500, 30000)):
             lines, info = gen_file(rng, malformed=(rng.random() < 0.35))
             cases.append((lines, info))
+        # record lengths relative to the asked code: every length 0..4n+2, for several n
+        for n in ([1, 2, 3, 4, 5, 7, 8, 9, 12, 13] if ctx.quick() else list(range(1, 18)) + [20, 25, 40]):
+            for _ in range(ctx.scale(2, 6)):
+                cases.append(gen_length_file(rng, n))
         # repo fixtures
         fx = os.path.join(os.environ.get('QECSIM_REPO', '/repo'), 'tests', 'models',
                           'test_generic_file_error_model_files')
@@ -246,7 +493,9 @@ def run(ctx):
             pf = float(p) if not isinstance(p, (list, dict, type(None))) else 0.1
             start = rng.choice([0, 0, 0, 1, 2, 3, info['m'], info['m'] + 1, -1, 'X', True])
             calls = []
-            for _ in range(rng.randint(0, info['m'] + 4)):
+            if 'calls' in info:
+                start = info['start']
+            for _ in range(rng.randint(0, info['m'] + 4) if 'calls' not in info else 0):
                 r = rng.random()
                 if r < 0.7:
                     calls.append(('g', n, pf))
@@ -260,6 +509,8 @@ def run(ctx):
                     calls.append(('l',))
                 else:
                     calls.append(('x', rng.choice(['bias', 'decoder', 'seed', 'a1', 'X_y', 'nope'])))
+            if 'calls' in info:
+                calls = list(info['calls'])
             path = os.path.join(tmp, 'f.jsonl')
             with open(path, 'w', encoding='latin-1', newline='') as f:
                 f.write(''.join(l + '\n' for l in lines))
@@ -273,11 +524,12 @@ def run(ctx):
                      meta={'kind': info['kind'], 'lines': lines, 'start': sw,
                            'calls': [list(c) for c in calls], 'n': n})
             ctx.count('kind', info['kind'].split(':')[0]); ctx.count('open', impl.split()[0])
+            if 'cls' in info:
+                ctx.count('class', info['cls']); ctx.count('lengths-n', n)
             ctx.count('start', sw if sw in ('X', '-1') else ('0' if sw == '0' else '>0'))
             # direct monitor of the core clause: a well-formed file serves exactly the recorded errors in order
             if info['kind'] == 'wellformed' and impl.startswith('open=ok') and isinstance(start, int) and start >= 0:
                 # the property itself, from the file text alone: in-order service from `start`, refusals, EOF
-                from qecsim import paulitools as pt
                 body = [json.loads(l) for l in lines if tok_of(l).startswith('E') and l.strip() and not
                         l.strip().startswith('//')]
                 ptr = int(start); outs = impl[8:].split('|') if len(impl) > 8 else []
@@ -289,13 +541,51 @@ def run(ctx):
                     elif ptr >= len(body):
                         exp = 'EOFError'
                     else:
-                        e = pt.unpack(tuple(body[ptr])); ptr += 1
+                        e = unpack_bits(body[ptr]); ptr += 1
                         exp = bits(e) if len(e) == 2 * c[1] else 'Rejected'
+                        if o != exp and exp == 'Rejected':
+                            ctx.monitor_fail('a recorded error of {} bits was served to a code of {} qubits (needs '
+                                             'exactly {} bits) instead of being refused: record {} served as {}'
+                                             .format(len(e), c[1], 2 * c[1], json.dumps(body[ptr - 1]), o[:80]),
+                                             {'lines': lines, 'start': sw, 'calls': [list(c) for c in calls],
+                                              'record': body[ptr - 1], 'record_bits': len(e), 'qubits': c[1],
+                                              'got': o[:80], 'expected': exp}, key='wrong-length-record-served')
+                            break
                     if o != exp:
                         ctx.monitor_fail('well-formed file not replayed faithfully (order / refusal / EOF)',
                                          {'lines': lines, 'start': sw, 'calls': [list(c) for c in calls],
                                           'got': o[:80], 'expected': exp[:80]})
                         break
+        # histories: repeated records, several models over the same file, caller-owned served arrays modified in place
+        n_standalone = 0
+        for it in range(ctx.scale(250, 4000)):
+            h = gen_history(rng)
+            impls, fail = exec_history(h, tmp)
+            lw = wire_lines(h['lines'])
+            for j, mo in enumerate(h['models']):
+                cw = ','.join('g{}:{}'.format(st[2], rat(Fraction(st[3]))) for st in h['steps']
+                              if st[0] == 'g' and st[1] == j) or '.'
+                ctx.case('c18 run {} {} {}'.format(mo['start'], lw, cw), impls[j], nontrivial=True,
+                         meta={'kind': 'wellformed', 'cls': 'history', 'lines': h['lines'], 'start': str(mo['start']),
+                               'history': h, 'model_index': j})
+            ctx.count('kind', 'history'); ctx.count('history-models', len(h['models']))
+            ctx.count('history-mutations', sum(1 for st in h['steps'] if st[0] == 'mut' and st[1] != 'none'))
+            ctx.count('history-repeats', h['m'] - len(set(l for l in h['lines'] if tok_of(l).startswith('E'))))
+            if fail:
+                # prefer a report that stands on its own: the same history in a fresh interpreter
+                alone = None; ran = False
+                if n_standalone < 6:
+                    n_standalone += 1; ran = True
+                    alone = standalone_failure(h)
+                rec = dict(alone or fail, lines=h['lines'], models=h['models'], steps=h['steps'],
+                           probability=h['p'], qubits=h['n'],
+                           fresh_interpreter=('reproduced' if alone else 'not re-run' if not ran else
+                                              'fails only after the earlier histories of this run'))
+                if alone:
+                    ctx.counterexamples.insert(0, {'what': alone['what'], 'input': rec,
+                                                   'key': 'served-error-depends-on-caller-history'})
+                else:
+                    ctx.monitor_fail(fail['what'], rec, key='served-error-depends-on-caller-history')
         # comment / blank classification on its own
         for raw in ['', ' ', '\t', '//', '// x', ' //x', '/', '/ /', 'a//b', '{"a":1} // c', '\x0b', '\x0c', '\r',
                     ' \r\t//', '#', '/*', '///', ' / /', '\x0b//', ' \x0c \t']:
@@ -309,10 +599,28 @@ def run(ctx):
 
 def search(m):
     meta = m.get('meta') or {}
+    if meta.get('cls') == 'history':
+        # the property evaluated on the real code alone, from the file text: re-run the recorded history
+        fail = standalone_failure(meta['history'])      # fresh interpreter: the history on its own
+        where = 'reproduced'
+        if not fail:
+            where = 'fails only after the earlier histories of this run'
+            tmp = tempfile.mkdtemp(prefix='qv_c18_', dir='/var/tmp')
+            try:
+                _, fail = exec_history(meta['history'], tmp)
+            finally:
+                shutil.rmtree(tmp, ignore_errors=True)
+        if fail:
+            h = meta['history']
+            return dict(fail, lines=h['lines'], models=h['models'], steps=h['steps'], probability=h['p'],
+                        qubits=h['n'], fresh_interpreter=where)
+        return None
     if meta.get('kind') == 'wellformed' and m['impl'].startswith('open=ok') and m['model'].startswith('open=ok'):
         a = m['impl'][8:].split('|'); b = m['model'][8:].split('|')
         for i, (x, y) in enumerate(zip(a, b)):
             if x != y:
+                if x.endswith('!readonly'):
+                    return None
                 return {'what': 'file error model does not replay the file faithfully: call {} returned {} where the '
                                 'file dictates {}'.format(i, x[:80], y[:80]),
                         'lines': meta.get('lines'), 'start': meta.get('start'), 'calls': meta.get('calls')}
@@ -327,9 +635,42 @@ def search(m):
 
 
 def replay(ctx, path):
+    """re-evaluate the recorded cases on the CURRENT tree: the file is written and driven again (the model's reply is
+    the recorded one: the model does not depend on the tree); histories are re-run on their own in a fresh interpreter"""
     body = json.load(open(path)); bad = 0
-    for v in body.get('violations', []):
-        mm = v.get('first_mismatch')
-        if mm:
+    tmp = tempfile.mkdtemp(prefix='qv_c18_', dir='/var/tmp')
+    try:
+        for v in body.get('violations', []):
+            ce = v.get('counterexample') or {}
+            inp = ce.get('input') if isinstance(ce.get('input'), dict) else ce
+            if isinstance(inp, dict) and 'steps' in inp and 'models' in inp:
+                h = {'lines': inp['lines'], 'models': inp['models'], 'steps': inp['steps'], 'p': inp['probability'],
+                     'n': inp['qubits'], 'm': 0}
+                f = standalone_failure(h)
+                print('replay history ({} steps) in a fresh interpreter ->'.format(len(h['steps'])), f)
+                bad += bool(f)
+                continue
+            mm = v.get('first_mismatch')
+            if not mm:
+                continue
+            meta = mm.get('meta') or {}
+            if meta.get('cls') != 'history' and meta.get('lines') is not None and meta.get('calls') is not None:
+                hdr = {}
+                for l in meta['lines']:
+                    try:
+                        o = json.loads(l)
+                        if isinstance(o, dict):
+                            hdr.update(o)
+                    except ValueError:
+                        pass
+                fpath = os.path.join(tmp, 'r.jsonl')
+                with open(fpath, 'w', encoding='latin-1', newline='') as f:
+                    f.write(''.join(l + '\n' for l in meta['lines']))
+                sw = meta.get('start', '0')
+                mm = dict(mm, impl=drive(fpath, 'X' if sw == 'X' else int(sw), [tuple(c) for c in meta['calls']], hdr))
+                if mm['impl'] == mm['model']:
+                    print('replay', mm['op'][:120], '-> the current tree agrees with the model'); continue
             r = search(mm); print('replay', mm['op'][:120], '->', r); bad += bool(r)
+    finally:
+        shutil.rmtree(tmp, ignore_errors=True)
     return 1 if bad else 0
